@@ -46,6 +46,8 @@ type Options struct {
 	// to the library parser of that framing; 2 with AsProtocolErrorFunc set to the library recogniser of that framing; 3 both.
 	// (The framing-specific constructors must behave the same for all of them.)
 	Ctor int
+	// CtxDeadline > 0: calls are made with a context that carries this (distant) deadline in addition to being cancellable.
+	CtxDeadline time.Duration
 }
 
 // Outcome of one call.
@@ -72,6 +74,7 @@ type Session struct {
 	Kind int
 	Conn *xport.Conn
 	rt   time.Duration
+	dl   time.Duration
 	do   func(ctx context.Context, req packet.Request) (packet.Response, error)
 }
 
@@ -81,7 +84,7 @@ func NewSession(kind int, o Options) *Session {
 	if o.ReadTimeout == 0 {
 		o.ReadTimeout = 2 * time.Second
 	}
-	s := &Session{Kind: kind, Conn: conn, rt: o.ReadTimeout}
+	s := &Session{Kind: kind, Conn: conn, rt: o.ReadTimeout, dl: o.CtxDeadline}
 	switch kind {
 	case TCP, RTUNet:
 		cfg := modbus.ClientConfig{ReadTimeout: o.ReadTimeout, WriteTimeout: time.Second, Hooks: o.Hooks,
@@ -138,6 +141,11 @@ func NewSession(kind int, o Options) *Session {
 func (s *Session) Do(req packet.Request, script xport.Script) Outcome {
 	ctx, cancel := context.WithCancel(context.Background())
 	defer cancel()
+	if s.dl > 0 {
+		var c2 context.CancelFunc
+		ctx, c2 = context.WithTimeout(ctx, s.dl)
+		defer c2()
+	}
 	s.Conn.Rearm(script, cancel)
 	out := Outcome{Conn: s.Conn}
 	done := make(chan struct{})
